@@ -11,6 +11,7 @@ CONSTANTS
   SSizes = {1}
   Filts = {"none", "client", "server"}
   Ops = {"pub", "rem", "exp", "clear", "refresh"}
+  MaxJumps = 0
   Pres = {3}
   N0s = {0}
   Contig = FALSE
